@@ -14,7 +14,12 @@ ID = 'C19'
 OCAML_UTILS = ['zio.ml']
 OCAML_PACKAGES = ['coq-core.kernel']
 OCAML_FLAGS = '-rectypes -thread'
-RULE = ('metrics: point pairs/triples on the plane (integers, dyadic fractions, random doubles, large and tiny magnitudes, '
+RULE = ('metrics: point pairs/triples on the plane (integers, dyadic fractions, random doubles, large (1e12, 1e100) and tiny magnitudes, signed '
+        'zeros, 2**53 neighbours, Python-int arguments, ')
+RULE += ('sphere points incl. signed zeros, 1e-300, integer arguments, radii 0 .. 1e12; numeric radii from 1e-7 to 2.5e17 (exponent-form str), '
+         'NumPy-scalar radii, integer cell sizes; calc_cellsize with res as tuple / list / ndarray / ints, band axis, renamed dims, descending x, '
+         'uneven spacing, rasters up to 257x300; ')
+RULE += (''
         'coincident and collinear points) and on the sphere (poles, antimeridian, antipodes, coincident / nearly coincident points, '
         'random), plus out-of-range and NaN coordinates; kernels: _ellipse_kernel for all half-width pairs up to a bound (hw != hh '
         'included), circle_kernel / annulus_kernel with non-square cell sizes, radii that are not multiples of the cell size, radii '
@@ -43,7 +48,9 @@ TRUSTED = [
     'rounding is not proved — the rounded float results are covered by the oracle (d in [0, pi R (1+1e-15)], no NaN at antipodes)',
 ]
 ASSUMPTIONS = ['ASCII distance strings (Python \\d and float() also accept other Unicode digits)',
-               'positive finite cell sizes; numeric radii whose str() is positional (no exponent form)',
+               'positive finite cell sizes; Python float / int (binary64 / int64) arguments to the metric functions — np.float32 arguments make Numba compile a float32 '
+               'signature (not modelled), integer coordinate differences beyond 3.03e9 overflow int64 in x*x (not explored)',
+               'the model is the behaviour after fixes/C19-radius-positional-str.diff (numeric radii written positionally) and fixes/C19-unit-mile.diff',
                'the model is the behaviour after fixes/C19-get-distance-finite.diff (nan / inf distances rejected)',
                'coordinates away from the subnormal range for "zero iff coincident" (x*x underflows below ~1e-162)']
 PARTIAL = [
@@ -790,7 +797,7 @@ def run_kernels(ctx, conv, lines, cmp):
             elif inner_kind < 0.85:
                 inner = round(float(radius) * rng.uniform(0.05, 0.99), rng.randint(1, 3)) or radius
             else:
-                inner = float(radius) + rng.randint(1, 3)
+                inner = float(radius) * rng.choice([1.25, 1.5, 2.0, 3.0])      # relative: an absolute +1 would be 10**7 cells on tiny cell sizes
             case2 = {'family': 'annulus', 'cx': cx, 'cy': cy, 'outer': case['radius'], 'inner': inner}
             ctx.case(case2)
             ra = call(conv.annulus_kernel, cx, cy, radius, inner)
